@@ -140,6 +140,43 @@ theorem handleOne_fields (o : HOut) (e : Event) (c : HCall) (h : c ∈ (handleOn
   simp only [Bool.and_eq_true, beq_iff_eq] at this
   exact ⟨this.1.1, this.1.2, this.2⟩
 
+/-! ### a committed event never comes back (abstract log) -/
+
+/-- `id` has been issued already and no stored or in-flight event carries it -/
+def Gone (id : Nat) (a : Abs) : Prop :=
+  id ≤ a.next ∧ (∀ e ∈ a.pending, e.id ≠ id) ∧ (∀ e ∈ a.inflight, e.id ≠ id)
+
+theorem Gone.step (id : Nat) (op : Op) (a : Abs) (h : Gone id a) : Gone id (absStep op a).2 := by
+  obtain ⟨h1, h2, h3⟩ := h
+  cases op with
+  | begin t i =>
+    refine ⟨Nat.le_succ_of_le h1, h2, ?_⟩
+    intro e he
+    simp only [absStep] at he
+    rcases List.mem_append.mp he with he | he
+    · exact h3 e he
+    · simp at he; subst he; simp; omega
+  | finish n =>
+    simp only [absStep]
+    cases hf : a.inflight.find? (fun e => e.id == n) with
+    | none => exact ⟨h1, h2, h3⟩
+    | some e =>
+      refine ⟨h1, ?_, fun x hx => h3 x (List.mem_filter.mp hx).1⟩
+      intro x hx
+      rcases mem_insertById e x a.pending hx with hx | hx
+      · subst hx; exact h3 _ (List.mem_of_find?_eq_some hf)
+      · exact h2 x hx
+  | rejected => exact ⟨h1, h2, h3⟩
+  | commit n => exact ⟨h1, fun x hx => h2 x (List.mem_filter.mp hx).1, h3⟩
+  | reopen => exact ⟨h1, h2, fun _ h => nomatch h⟩
+  | inject k v => exact ⟨h1, h2, h3⟩
+  | recover reg out => exact ⟨h1, fun x hx => h2 x (List.mem_filter.mp hx).1, h3⟩
+
+theorem Gone.run (id : Nat) (ops : List Op) (a : Abs) (h : Gone id a) : Gone id (absRun ops a).2 := by
+  induction ops generalizing a with
+  | nil => exact h
+  | cons op ops ih => simp only [absRun]; exact ih _ (h.step id op a)
+
 /-! ### ids never repeat (concrete model, any history at all) -/
 
 theorem step_seq_mono (op : Op) (st : St) : st.seq ≤ (step op st).2.seq := by
